@@ -92,6 +92,14 @@ C06_ConflictWF(alpha, beta, plan) ==
      /\ k.ac # {} /\ k.bc # {}
      /\ \A c \in k.ac \cup k.bc : IsPrefix(k.root, c.path)
      /\ ~ShallowEq(At(alpha, k.root), At(beta, k.root))
+     \* within one side of a conflict no path is named twice (two different changes) or nested
+     /\ \A c1, c2 \in k.ac : c1 # c2 => ~IsPrefix(c1.path, c2.path)
+     /\ \A c1, c2 \in k.bc : c1 # c2 => ~IsPrefix(c1.path, c2.path)
+\* the same on the real lists (a sequence can name one change twice, which a set cannot show)
+C06_ConflictListsWF(confSeq) ==
+  \A i \in DOMAIN confSeq : \A side \in {"ac", "bc"} :
+     LET q == confSeq[i][side] IN
+     \A m, n \in DOMAIN q : m # n => ~IsPrefix(q[m].path, q[n].path)
 
 \* --- C05 (any outcome) ------------------------------------------------------
 Outcomes(c) == SubTrees(c.old) \cup SubTrees(c.new)
